@@ -48,6 +48,17 @@ func NewInformerWorker(ctrlContext *Context) *InformerWorker {
 		DeleteFunc: w.handleJob,
 	})
 
+	// Add event handler for JobConfigs.
+	// A Job may be observed before its parent JobConfig is (e.g. after a restart, or
+	// when both were just created), in which case it could not be enqueued when
+	// handling the Job. Sync the JobConfig once it is observed for the first time,
+	// so that such Jobs are not left in the queue.
+	w.jobconfigInformer.Informer().AddEventHandler(cache.ResourceEventHandlerFuncs{
+		AddFunc: func(obj interface{}) {
+			w.enqueueObject(obj, w.jobConfigQueue)
+		},
+	})
+
 	return w
 }
 
